@@ -81,7 +81,6 @@ func DecodeChunkedLenient(in []byte) (payload []byte, ok bool) {
 	i := 0
 	n := len(d)
 
-
 	for {
 		for i < n && d[i] == '\n' {
 			i++
